@@ -6,6 +6,7 @@ import (
 	"fmt"
 	"go/token"
 	"go/types"
+	"regexp"
 	"strings"
 
 	"golang.org/x/tools/go/ssa"
@@ -73,11 +74,7 @@ func calleeLabel(i ssa.Instruction) string {
 		return namedTypeName(c.Value.Type()) + "." + c.Method.Name()
 	}
 	if f := orig(c.StaticCallee()); f != nil {
-		n := shortName(f)
-		if k := strings.LastIndex(n, "/"); k >= 0 {
-			n = n[k+1:]
-		}
-		return n
+		return trimPkgDirs(shortName(f))
 	}
 	// dynamic call through a function value
 	switch v := c.Value.(type) {
@@ -618,3 +615,8 @@ func constructionGuards(nsf *ssa.Function, fld string) (map[string]bool, bool) {
 	}
 	return guards, any
 }
+
+var pkgDirRe = regexp.MustCompile(`[A-Za-z0-9_.\-]+/`)
+
+// trimPkgDirs drops directory components of package paths: "(*appencryption/plugins/aws-v2/kms.AWSKMS).X" -> "(*kms.AWSKMS).X".
+func trimPkgDirs(s string) string { return pkgDirRe.ReplaceAllString(s, "") }
